@@ -668,6 +668,16 @@ impl<M: Manager, W: From<Object<M>>> Pool<M, W> {
         })
     }
 
+    /// Creation instants of the idle objects in queue order (verification
+    /// builds only; identifies which object sits where). Returns `None`
+    /// while the slots lock is held.
+    #[cfg(deadpool_verif)]
+    #[cfg(not(target_arch = "wasm32"))]
+    pub fn verif_idle_order(&self) -> Option<Vec<Instant>> {
+        let slots = self.inner.slots.try_lock_silent().ok()?;
+        Some(slots.vec.iter().map(|o| o.metrics.created).collect())
+    }
+
     /// Ids of the shim objects `(slots, users, semaphore)` (verification
     /// builds only).
     #[cfg(deadpool_verif)]
